@@ -474,9 +474,12 @@ def run_query_(o, tier, backend):
         if fn:
             fns.add(fn)
         if lab == 'witness':
-            witness = st
+            # several witness assertions may exist (one per exit of the harness): reachable if any is
             if st == 'FAILURE':
+                witness = st
                 o.witness_inputs = trace_inputs(r)
+            elif witness != 'FAILURE':
+                witness = st if witness in (None, 'SUCCESS') else witness
             continue
         if st == 'FAILURE':
             fails.append((lab, r))
